@@ -1779,7 +1779,8 @@ class Calendar(Component):
         >>> calendar.get_missing_tzids()  # check that all are added
         set()
         """
-        for tzid in self.get_missing_tzids():
+        # sorted: the order must not depend on the hash seed of the interpreter
+        for tzid in sorted(self.get_missing_tzids()):
             try:
                 timezone = Timezone.from_tzid(
                     tzid,
